@@ -39,6 +39,14 @@ func c13Repr(n any) string {
 		return fmt.Sprint(v)
 	case *c13StringerNode:
 		return v.String()
+	case int:
+		return strconv.Itoa(v)
+	case *c13StructNode: // a pointer to a non-Stringer struct is represented by the struct it points to
+		return fmt.Sprint(*v)
+	case float64:
+		return strconv.FormatFloat(v, 'f', -1, 64)
+	case []byte:
+		return string(v)
 	}
 	panic("unknown node kind")
 }
@@ -96,7 +104,13 @@ func c13Keys(n int, seed int64) []string {
 func c13MakeNodes(r interface{ Intn(int) int }, n int, salt int) []any {
 	nodes := make([]any, n)
 	for i := range nodes {
-		switch r.Intn(3) {
+		switch r.Intn(6) {
+		case 3:
+			nodes[i] = salt*1000 + i*37 + r.Intn(30)
+		case 4:
+			nodes[i] = &c13StructNode{Host: fmt.Sprintf("p%d-%d", salt, i), Port: 7000 + r.Intn(1000)}
+		case 5:
+			nodes[i] = float64(salt) + float64(i)/8 + 0.0625
 		case 0:
 			nodes[i] = fmt.Sprintf("10.%d.%d.%d:6379", salt%250, r.Intn(250), i)
 		case 1:
@@ -135,7 +149,7 @@ func c13Effective(op c13Op, R int) int {
 }
 
 func TestVerifC13Ring(t *testing.T) {
-	m := vk.New(t, "C13", "seeded membership histories (20-40 ops of Add/AddWithWeight/AddWithReplicas/Remove over 2-7 nodes: strings, structs, Stringers; weights 0..150, replicas 0..150) observed through Get over a fixed population of 2000 keys after every operation: membership/totality, determinism, minimal disruption on Remove and Add, equality with a reference ring (and with a freshly built ring) after re-weighting, weight-0 owns nothing, share ~ weight; non-trivial = at least one key changed owner")
+	m := vk.New(t, "C13", "seeded membership histories (20-40 ops of Add/AddWithWeight/AddWithReplicas/Remove over 2-7 nodes: strings, structs, Stringers, ints, floats, pointers to structs; weights 0..150, replicas 0..150) observed through Get over a fixed population of 2000 keys after every operation: membership/totality, determinism, minimal disruption on Remove and Add, equality with a reference ring (and with a freshly built ring) after re-weighting, weight-0 owns nothing, share ~ weight; non-trivial = at least one key changed owner")
 	defer m.Done()
 	n := vk.N(200, 12000)
 	r := m.Rand("ring")
